@@ -127,6 +127,10 @@ def run(ctx):
                fact=str(g[0]) if g else f"amount added = {show(val, 50)}; no gate excludes a negative value",
                why='filling to less than is already present removes solvent instead of being refused',
                key='no gate on negative required amount')
+    # a plate or slice is filled by the container operation on every addressed well, and the refusal of any well
+    # leaves the call (a wrapper that catches it returns wells that are not at the target)
+    from .c07 import forwarding
+    forwarding(ctx, 'C11.R2', only=('fill_to',))
     # ---- R4 measure table of fill_to
     from .c02 import siblings
     before = len(ctx.obs)
